@@ -320,7 +320,7 @@ func (intr *treeInterpreter) fieldFromStruct(key string, value interface{}) (int
 	fieldName := string(unicode.ToUpper(first)) + key[n:]
 	if rv.Kind() == reflect.Struct {
 		v := rv.FieldByName(fieldName)
-		if !v.IsValid() {
+		if !v.IsValid() || !v.CanInterface() {
 			return nil, nil
 		}
 		return v.Interface(), nil
@@ -330,8 +330,12 @@ func (intr *treeInterpreter) fieldFromStruct(key string, value interface{}) (int
 			return nil, nil
 		}
 		rv = rv.Elem()
+		if rv.Kind() != reflect.Struct {
+			// A pointer to something that has no fields.
+			return nil, nil
+		}
 		v := rv.FieldByName(fieldName)
-		if !v.IsValid() {
+		if !v.IsValid() || !v.CanInterface() {
 			return nil, nil
 		}
 		return v.Interface(), nil
